@@ -153,6 +153,8 @@ def run(ck):
     ck.rule("C08.R12", "Layered decides `the value below me is the Registry` from that value's own type: a layer combined with and_then keeps its hint", floor=1)
     ck.rule("C08.R13", "wrappers hand out type-identity answers (downcast_raw) with the right polarity, and a reload handle lets the per-layer-filter marker through (as C09.R2)", floor=8)
     ck.rule("C08.R14", "Layered::pick_level_hint / pick_interest: complete decision tables (every flag combination x hint/interest class) equal the reference composition", floor=2)
+    ck.rule("C08.R15", "a published `always` is honoured: no filter bit survives an emission to make a later always-cached event skip a layer (bitmap typestate, as C07.R5)", floor=100)
+    ck.rule("C08.R15s", "effect summaries behind C08.R15 (as C07.R5s)", floor=9)
     ck.rule("C08.R8", "level hints and thresholds are compared by a correct total order (as C19.R1/R2/R4)", floor=60)
     ck.rule("C08.R1", "And/Or/Not: interest table sound w.r.t. enabled; hint is a sound bound", floor=6)
     ck.rule("C08.R2", "Option<F>: None is neutral, Some forwards", floor=4)
@@ -170,6 +172,8 @@ def run(ck):
     envfilter_interest(ck, F)
     inner_is_registry_rule(ck, F)
     pick_tables(ck, F)
+    # what a stack publishes as `always` is only true if the per-filter state every later emission reads is left clean
+    C07.r5(ck, Facts("release"), rid="C08.R15")
     from rules import C09
     C09.wrapper_rules(ck, F, rids={"R0": "C08.R13", "R1": "C08.R13", "R2": "C08.R13", "R3": "C08.R13"}, traits=["tracing_subscriber::subscribe::Subscribe"], only={"downcast_raw"})
     r1(ck, F)
